@@ -32,21 +32,21 @@ type TB interface {
 }
 
 type prop struct {
-	Evaluations int64            `json:"evaluations"`
-	Nontrivial  int64            `json:"nontrivial"`
-	Enumerated  int64            `json:"enumerated_distinct_nontrivial"` // distinct by construction
-	Labels      map[string]int64 `json:"labels"`
-	Required    []string         `json:"required"`
-	Samples     []any            `json:"samples"`
-	Violations  []violation      `json:"violations"`
-	Rules       []string         `json:"rules"`
-	Exhaustive  []string         `json:"exhaustive"`
-	Short       []string         `json:"short"` // tests that ran fewer cases than planned
-	Planned     map[string]int64 `json:"planned"`
-	Notes       []string         `json:"notes"`
-	HashOverflow bool            `json:"hash_overflow"`
+	Evaluations  int64            `json:"evaluations"`
+	Nontrivial   int64            `json:"nontrivial"`
+	Enumerated   int64            `json:"enumerated_distinct_nontrivial"` // distinct by construction
+	Labels       map[string]int64 `json:"labels"`
+	Required     []string         `json:"required"`
+	Samples      []any            `json:"samples"`
+	Violations   []violation      `json:"violations"`
+	Rules        []string         `json:"rules"`
+	Exhaustive   []string         `json:"exhaustive"`
+	Short        []string         `json:"short"` // tests that ran fewer cases than planned
+	Planned      map[string]int64 `json:"planned"`
+	Notes        []string         `json:"notes"`
+	HashOverflow bool             `json:"hash_overflow"`
 
-	hashes map[uint64]struct{}
+	hashes     map[uint64]struct{}
 	sampleSeen int64
 }
 
